@@ -940,7 +940,18 @@ func equalsKindsRule(c *Ctx, r *R) {
 			continue
 		}
 		n++
-		tested := strings.Contains(ret, "b.t") || strings.Contains(condStrings(p), "b.t")
+		// the same kind test that selected this case for v must have been made on b
+		tested := false
+		for _, cd := range p.Conds {
+			cs := cd.String()
+			if strings.HasPrefix(cs, "!") || !strings.Contains(cs, "v.t") || strings.Contains(cs, "!=") || strings.Contains(cs, "<=") {
+				continue
+			}
+			want := strings.ReplaceAll(cs, "v.t", "b.t")
+			if strings.Contains(ret, want) || strings.Contains(condStrings(p), want) {
+				tested = true
+			}
+		}
 		r.check(tested, fmt.Sprintf("Equals kinds %d", i), c.Pos(fd), "the right operand's tag is tested before its payload is read", "Value.Equals reads the right operand's payload ("+ret+") on a path that never looked at its tag (path: "+condStrings(p)+"): with operands of different kinds held in `any` values, 0 == \"v\" is true and \"v\" == 0 aborts with an interface-conversion error")
 	}
 	if n < 2 {
